@@ -81,7 +81,7 @@ func (v *jv) size() int {
 }
 
 var namePool = []string{"a", "b", "c", "d", "foo", "bar", "a/b", "m~n", "~0", "~1", "0", "1", "2", "-", "01",
-	"<k&>", "k ", "é", "😀", "x y", "q\"t", "b\\s", "", "-1", "10", "rate%d", "%v", "100% sure", "%w", "%"}
+	"<k&>", "k ", "é", "😀", "x y", "q\"t", "b\\s", "", "-1", "10", "rate%d", "%v", "100% sure", "%w", "%", "\foo", "b\bk"}
 var plainNames = []string{"a", "b", "c", "d", "e", "foo", "bar", "baz", "k1", "k2", "p%s"}
 var numPool = []string{"0", "-0", "1", "2", "3", "1.0", "1e400", "1E+2", "12345678901234567890123", "-1.5e-3", "10",
 	"100", "2.50", "0.1", "-7", "1e2", "100.0", "0.10"}
@@ -91,7 +91,7 @@ var strPool = []string{"", "s", "t", "<>&", "a\"b", "back\\slash", "tab\t", " 
 	"\u007f\u0080", "\u07ff\u0800", "\ud7ff\ue000", "\uffff", "\U00010000", "\U000103ff", "\U0001f400", "\U0010fc00", "\U0010ffff",
 	"\U00020000x", "\ufffd", "100%", "%s%d%v", "%!(EXTRA)", "50%% off",
 	// neighbours of the byte patterns the HTML escaper looks for (E2 80 A8 / E2 80 A9)
-	"\u2068", "\u2069", "\u2027", "\u202a", "\u3028", "\u20a8", "\u2028\u2029", "a\u2028", "\xe2\x80", "\xe2"}
+	"\u2068", "\u2069", "\u2027", "\u202a", "\u3028", "\u20a8", "\u2028\u2029", "a\u2028", "\xe2\x80", "\xe2", "\f", "\b\f\v"}
 
 type genCfg struct {
 	depth     int
